@@ -101,7 +101,8 @@ impl HttpRangeRequest {
                 RequestState::Stream(stream) => match ready!(stream.poll_next_unpin(cx)) {
                     Some(Ok(item)) => {
                         self.offset += item.len() as u64;
-                        self.size -= item.len() as u64;
+                        // A server may send more than it was asked for.
+                        self.size = self.size.saturating_sub(item.len() as u64);
                         return Poll::Ready(Some(Ok(item)));
                     }
                     Some(Err(err)) => return Poll::Ready(Some(Err(HttpReaderError::from(err)))),
